@@ -369,7 +369,42 @@ def check_encoder_table(prog, rep):
                     s.ghost["delta"] = v.aff
                     s.cells[("gh", "delta")] = v
     I.value_hooks.append(delta_value)
+    # every value the option walk yields is emitted: on each way round the innermost loop of the encoder some
+    # byte buffer that lives across iterations grows by a header (1..5 bytes) plus the value's length
+    emit = {"backs": 0, "bad": 0, "loops": 0}
+
+    def emit_hook(I_, ctx, h, head, backs, exits):
+        if ctx.body["id"] != body["id"] or ctx.depth != 0:
+            return
+        if any(h2 != h and h2 in ctx.info.loops[h] for h2 in ctx.info.loops):
+            return          # not the innermost loop
+        emit["loops"] += 1
+        for b_ in backs:
+            emit["backs"] += 1
+            grew = False
+            for key, hv in head.cells.items():
+                if not (isinstance(key, tuple) and key and key[0] == ctx.fid and isinstance(hv, VecV)):
+                    continue
+                bv = b_.cells.get(key)
+                if not isinstance(bv, VecV):
+                    continue
+                d = bv.len - hv.len
+                # header bytes + value length: a constant 1..5 plus exactly one length symbol
+                if d.is_const():
+                    continue
+                lo, hi = b_.range(d)
+                if lo >= 1 and 1 <= d.c <= 5 and len(d.t) == 1 and d.t[0][1] == 1:
+                    grew = True
+                elif lo >= 1 and b_.entails(d - 1):
+                    grew = True
+            if not grew:
+                emit["bad"] += 1
+    I.loop_hooks.append(emit_hook)
     I, res = run(prog, body, args=[a0, lim], st=st, I=I)
+    rep.ob("C01.4", "encoder|every-value-emitted", emit["bad"] == 0 and emit["backs"] >= 3,
+           "the encoder can go round its option loop on %d of %d paths without its output growing by an option header plus the value: "
+           "that option (e.g. one with an empty value) is missing from the wire image and the following deltas are off" % (emit["bad"], emit["backs"]), site,
+           sample={"rule": "C01.4", "iteration_paths": emit["backs"]})
     ok_rows = 0
     classes = set()
     for s, pushes, ln, csite in rows:
